@@ -10,6 +10,17 @@ choices with a visited set; states are small), EXCEPT where a statement fixes th
   * sleep_for(d) returns exactly at start+d (C03); an actor with a kill time dies exactly at that date (C11);
   * ActivitySet::wait_any_for: the exact tie is left open (its timeout is an ordinary event).
 
+Granularity of the interleaving (what "any order" means), chosen so that the reference never demands more than the
+kernel's scheduling rounds can promise:
+  * performing an op and writing its record are two steps: a kill or a suspend issued at the same date may fall between
+    them (the op took effect, its record never appears / appears only after resume);
+  * an actor that is suspended while it was about to run still performs the one op it had issued (grace), but logs
+    nothing until it is resumed; its execs and I/Os are paused, its sleeps are not (the wake-up is delivered at resume);
+  * a new actor logs "start" and registers its template attributes (daemon, auto-restart, on_exit callbacks) as separate
+    unlogged ops when it first runs: it may be killed before, or in the middle;
+  * a message (Mess) completes in the very step that posts its second side; a communication whose peer dies fails
+    ("netfail") for the survivor; a deadlocked program is killed at `end_date` (the date the engine gave up).
+
 Resources are never shared here (one host per actor, one link per communication, one disk per I/O, enough cores): the
 reference raises RefError("sharing") when a program would make two activities contend, instead of guessing a share.
 
